@@ -204,7 +204,7 @@ func (vc *VC) instr(fr *Frame, st *State, ins ssa.Instruction) {
 	case *ssa.Defer:
 		vc.deferCall(fr, st, x)
 	case *ssa.RunDefers:
-		return
+		vc.runDefers(fr, st, x)
 	case *ssa.Go:
 		vc.note("go statement dropped (sequential semantics only): " + x.Call.Value.Name())
 		vc.havocAll(st)
@@ -345,6 +345,39 @@ func (vc *VC) addrUsesLocal(v ssa.Value, depth int) bool {
 			}
 			if !vc.calleeKeepsNoPointer(callee) {
 				return false
+			}
+		case *ssa.MakeClosure:
+			// captured by a function literal that is only called or deferred right here (and inlined by the
+			// engine): the cell stays local if the literal's own uses of it are local
+			fn, ok := x.Fn.(*ssa.Function)
+			if !ok || !vc.autoInline(fn) {
+				return false
+			}
+			crefs := x.Referrers()
+			if crefs == nil {
+				return false
+			}
+			for _, cr := range *crefs {
+				switch c := cr.(type) {
+				case *ssa.DebugRef:
+				case *ssa.Defer:
+					if c.Call.Value != ssa.Value(x) {
+						return false
+					}
+				case *ssa.Call:
+					if c.Call.Value != ssa.Value(x) {
+						return false
+					}
+				default:
+					return false
+				}
+			}
+			for i, b := range x.Bindings {
+				if b == v && i < len(fn.FreeVars) {
+					if !vc.addrUsesLocal(fn.FreeVars[i], depth+1) {
+						return false
+					}
+				}
 			}
 		default:
 			return false
